@@ -801,9 +801,19 @@ pub fn gen_tree(rng: &mut Rng, cfg: &GenCfg, pool: &mut Pool, depth: usize, unde
           8 if depth <= 1 => rng.range(9, 24),
           _ => rng.range(2, cfg.max_width.max(2)),
         };
-        let children = (0..n)
-          .map(|_| gen_tree(rng, cfg, pool, depth + 1, under_replace))
-          .collect();
+        let mut children: Vec<Spec> = Vec::with_capacity(n);
+        for _ in 0..n {
+          if !children.is_empty() && rng.chance(1, 8) {
+            // the same module twice in one bundle: an earlier sibling again
+            // (same files, names and contents; with instance sharing on, a
+            // CachedSource among them is the same object / a clone sharing
+            // its cache, see spec::share_cached_instances)
+            let k = rng.below(children.len());
+            children.push(children[k].clone());
+          } else {
+            children.push(gen_tree(rng, cfg, pool, depth + 1, under_replace));
+          }
+        }
         let how = *rng.pick(&[How::NewBoxed, How::NewBoxed, How::Add, How::NewTyped]);
         return Spec::Concat { children, how };
       }
